@@ -578,8 +578,17 @@ pub fn gen_s6(rng: &mut Rng) -> Scenario {
     let e = *rng.pick(&linked);
     let pe = init.partition(1);
     let e = pe[e as usize];
-    // the waited-for vertex: an end point of e
-    let v = if rng.chance(0.5) { pv[e as usize] } else { pv[init.b(1, e) as usize] };
+    // the waited-for vertex: an end point of e — or, for a collapse, a vertex of the ring around
+    // an end point, so that the kernel gets as far as its final orientation check before it waits
+    let (a, b) = (pv[e as usize], pv[init.b(1, e) as usize]);
+    let ring: Vec<u32> = [a, b]
+        .iter()
+        .flat_map(|&c| init.orbit(crate::state::Policy::Vertex, c))
+        .map(|x| pv[init.b(1, x) as usize])
+        .filter(|&y| y != 0 && y != a && y != b)
+        .collect();
+    let collapse_variant = !ring.is_empty() && rng.chance(0.35);
+    let v = if collapse_variant { *rng.pick(&ring) } else if rng.chance(0.5) { a } else { b };
     let value = init.vtx[v as usize].take().unwrap();
     let mk_cut = |rng: &mut Rng, init: &crate::state::State, pool: &mut Vec<u32>, e: u32| -> Op {
         rng.shuffle(pool);
@@ -597,10 +606,18 @@ pub fn gen_s6(rng: &mut Rng) -> Scenario {
         _ => Runner::WithErr,
     };
     let mut threads: Vec<Vec<Tx>> = vec![];
-    let op = mk_cut(rng, &init, &mut pool, e);
+    let op = if collapse_variant { Op::Collapse { e } } else { mk_cut(rng, &init, &mut pool, e) };
     threads.push(vec![Tx { runner: runner(rng), ops: vec![op], f1: vec![], f2: vec![], f1_attempt: 0 }]);
     // the writer, possibly after an unrelated transaction
     let mut w = vec![];
+    if collapse_variant && rng.chance(0.5) {
+        // ... and after a change of the neighbourhood the waiter has already looked at
+        let around: Vec<u32> = [a, b].iter().flat_map(|&c| init.orbit(crate::state::Policy::Vertex, c)).filter(|&x| init.b(2, x) != 0 && pe[x as usize] != e).collect();
+        if !around.is_empty() {
+            let x = *rng.pick(&around);
+            w.push(Tx { runner: Runner::WithErr, ops: vec![Op::Unsew { i: 2, l: x }], f1: vec![], f2: vec![], f1_attempt: 0 });
+        }
+    }
     if rng.chance(0.5) {
         w.push(Tx { runner: Runner::WithErr, ops: vec![Op::ReadV { id: pv[*rng.pick(&linked) as usize] }], f1: vec![], f2: vec![], f1_attempt: 0 });
     }
